@@ -443,6 +443,10 @@ func jpfAvg(arguments []interface{}) (interface{}, error) {
 	// We've already type checked the value so we can safely use
 	// type assertions.
 	args := arguments[0].([]interface{})
+	if len(args) == 0 {
+		// The average of no numbers is null, not NaN.
+		return nil, nil
+	}
 	length := float64(len(args))
 	numerator := 0.0
 	for _, n := range args {
@@ -466,7 +470,7 @@ func jpfContains(arguments []interface{}) (interface{}, error) {
 	// Otherwise this is a generic contains for []interface{}
 	general := search.([]interface{})
 	for _, item := range general {
-		if item == el {
+		if objsEqual(item, el) {
 			return true, nil
 		}
 	}
@@ -827,7 +831,8 @@ func jpfToNumber(arguments []interface{}) (interface{}, error) {
 	}
 	if v, ok := arg.(string); ok {
 		conv, err := strconv.ParseFloat(v, 64)
-		if err != nil {
+		if err != nil || math.IsNaN(conv) || math.IsInf(conv, 0) {
+			// "inf", "nan" and out-of-range numerals are not JSON numbers.
 			return nil, nil
 		}
 		return conv, nil
